@@ -51,3 +51,36 @@ package header
 //@   invariant passed: forall k int :: 0 <= k && k <= rangeindex ==> passedVerify(ite(k == 0, old(trstd), old(untrstdRange[k-1])), old(untrstdRange[k]))
 //@   invariant adjacent: forall k int :: 1 <= k && k <= rangeindex ==> old(untrstdRange[k]).Height() == old(untrstdRange[k-1]).Height() + 1
 //@   decreases len(untrstdRange) - rangeindex
+
+// ---- interface contracts (assumed when verifying clients; proved for store.Store where stated)
+
+//@ ghost var storeHeightBound uint64 -- upper bound of the store height (entry assumption of clients)
+//@ ghost var storeLow uint64 -- monotone lower bound of the store height, learnt from Height() (heights never decrease: C17)
+//@ ghost var storeTailH uint64 -- height of the store's tail (only moved under Syncer.tailMu)
+
+//@ function chainAt(h uint64) H -- the header of the canonical chain at height h (A-chain)
+
+//@ iface Store.Height(s)
+//@   modifies ghost:storeLow
+//@   ensures result <= storeHeightBound && storeLow >= old(storeLow) && storeLow >= result
+
+//@ iface Store.Tail(s, ctx)
+//@   ensures result1 == nil ==> !result0.IsZero() && result0.Height() == storeTailH && 1 <= storeTailH
+//@   ensures result1 != nil ==> result0.IsZero()
+
+//@ iface Store.GetByHeight(s, ctx, height)
+//@   requires [C16] no-wait: height <= storeLow
+//@   ensures result1 == nil ==> !result0.IsZero() && result0.Height() == height && result0 == chainAt(height)
+
+//@ iface Store.Get(s, ctx, hash)
+//@   ensures result1 == nil ==> !result0.IsZero() && result0.Hash() == hash
+
+//@ iface Getter.GetByHeight(g, ctx, height)
+//@   ensures result1 == nil ==> !result0.IsZero() && result0.Height() == height
+
+//@ iface Getter.Get(g, ctx, hash)
+//@   ensures result1 == nil ==> !result0.IsZero() && result0.Hash() == hash
+
+//@ iface Store.DeleteRange(s, ctx, from, to)
+//@   requires [C16] tail-side: from < to && from == storeTailH && to <= storeLow + 1
+//@   modifies ghost:storeTailH
